@@ -10,6 +10,7 @@ use fnv::FnvHashMap;
 
 use crate::{DynamicLabel, AssemblyOffset, DynasmError, LabelKind, DynasmLabelApi};
 use crate::mmap::{ExecutableBuffer, MutableBuffer};
+use crate::verif_point;
 use crate::relocations::{Relocation, RelocationKind, RelocationSize, ImpossibleRelocation};
 use crate::cache_control;
 
@@ -135,40 +136,51 @@ impl MemoryManager {
             // create a larger writable buffer
             let mut new_buffer = MutableBuffer::new(self.execbuffer_size).expect("Could not allocate a larger buffer");
             new_buffer.set_len(new_asmoffset);
+            verif_point!("commit.grow.allocated");
 
             // copy over the data
             new_buffer[.. old_asmoffset].copy_from_slice(&self.execbuffer.read().unwrap());
             new_buffer[old_asmoffset..].copy_from_slice(new);
             let new_buffer_addr = new_buffer.as_ptr() as usize;
+            verif_point!("commit.grow.copied");
 
             // allow modifications to be made
             f(&mut new_buffer, self.execbuffer_addr, new_buffer_addr);
+            verif_point!("commit.grow.adjusted");
 
             // resynchronize the entire buffer
             cache_control::synchronize_icache(&new_buffer);
 
             // swap the buffers
             self.execbuffer_addr = new_buffer_addr;
-            *self.execbuffer.write().unwrap() = new_buffer.make_exec().expect("Could not swap buffer protection modes")
+            *self.execbuffer.write().unwrap() = new_buffer.make_exec().expect("Could not swap buffer protection modes");
+            verif_point!("commit.grow.swapped");
 
         } else {
 
             // temporarily change the buffer protection modes and copy in new data
             let mut lock = self.write();
+            verif_point!("commit.inplace.locked");
             let buffer = mem::replace(&mut *lock, ExecutableBuffer::default());
+            verif_point!("commit.inplace.taken");
             let mut buffer = buffer.make_mut().expect("Could not swap buffer protection modes");
+            verif_point!("commit.inplace.made_mut");
 
             // update buffer and length
             buffer.set_len(new_asmoffset);
             buffer[old_asmoffset..].copy_from_slice(new);
+            verif_point!("commit.inplace.written");
 
             // ensure that no old data remains in the icache of what we just updated
             cache_control::synchronize_icache(&buffer[old_asmoffset .. ]);
 
             // repack the buffer
             let buffer = buffer.make_exec().expect("Could not swap buffer protection modes");
+            verif_point!("commit.inplace.made_exec");
             *lock = buffer;
+            verif_point!("commit.inplace.restored");
         }
+        verif_point!("commit.done");
 
         new.clear();
         self.asmoffset = new_asmoffset;
